@@ -5,6 +5,7 @@
 import Phil
 import Phil.Heap
 import Phil.IndexPaths
+import Phil.CmdLineAuto
 open Phil
 
 def tokErrJ : TokErr → J
@@ -132,8 +133,8 @@ def handle (req : J) : J :=
        (match parseObjs mt with
         | .error e => .arr [.str "parse-failed", e.toJ]
         | .ok mobjs =>
-          let entries := targetEntries mobjs (expertLevels mobjs)
-          (match processArg home (entries.map (·.1)) (entries.map (·.2)) arg with
+          let entries := targetEntriesA mobjs (expertLevels mobjs) (expertAutos mobjs)
+          (match processArgA home (entries.map (·.1)) (entries.map (·.2.1)) (entries.map (·.2.2)) arg with
            | .ok objs => okJ (.arr (objs.map Obj.toJ))
            | .sorry_ kind paths => .arr [.str "err", .str "sorry", .str kind, .arr (paths.map J.text)]
            | .runtime e => e.toJ))
